@@ -1,5 +1,16 @@
 # -*- coding: utf-8 -*-
-"""C05 - lexical conventions: literals, whitespace, separators, case, empty arguments"""
+"""C05 - lexical conventions: literals, whitespace, separators, case, empty arguments
+
+case kinds (all of them are also sent to the Lean model):
+  lex   - a string: token stream of the real ply lexer vs the model lexer (no oracle)
+  slots - present/absent pattern of argument slots x separator x call `F(..)` / array literal `{..}`
+  num   - numeric literal of form int / dec / dot / pct / pow from digit strings a, b
+  str   - quoted literal: quote style q and contents s
+  ws    - a C04 tree: as rendered, with white space at token boundaries, with leading / trailing white space
+  sep   - argument texts as `G(..)` and `{..}` under the three separators
+  rows  - two-row literal `{a,b;c,d}`, `{a\\b;c\\d}`, `G(a,b;c,d)`
+  case  - cell references as written vs upper-cased, under a grid / label / echo host (see the section below)
+"""
 import itertools
 import random as _random
 from fractions import Fraction
@@ -21,41 +32,98 @@ FUNCTIONS = ['hotxlfp.grammarparser.parser:FormulaParser.p_expression_number', '
              'hotxlfp.helper.cell:extract_label', 'hotxlfp.helper.cell:to_label', 'hotxlfp.helper.cell:column_label_to_index',
              'hotxlfp.helper.cell:column_index_to_label', 'hotxlfp.grammarparser.lexer:t_ABSOLUTE_CELL',
              'hotxlfp.grammarparser.lexer:t_MIXED_CELL']
-RULE = ('(lex) token streams of seeded strings over token-rich and arbitrary Unicode alphabets, real ply lexer vs model lexer; '
-        '(slots) every present/absent pattern of 1..6 argument slots x 3 separators (complete) + seeded longer ones, through a '
-        'recording function; (lit) numeric literals of the five forms with seeded digit strings up to 40 digits, quoted '
-        'literals with seeded contents (ASCII, controls, accented/CJK, backslashes) in both quote styles; (ws) white space '
-        'inserted at token boundaries of generated formulas; (sep) the three separator styles; (arr) array literal shapes; '
+RULE = ('(lex) token streams of seeded strings, real ply lexer vs model lexer, compared as exact text (token types and values, a '
+        'lexer error with its offending character), no oracle: 1500 strings of 0..8 pieces of a pool of 70 (token spellings, '
+        'operators, both quotes and backslash-escaped quotes, error literals, blank / tab / newline / NBSP / ideographic space, an '
+        'Arabic-Indic digit, an emoji, NUL, \\x1c) and 300 of 0..11 code points, each from printable ASCII, U+0000..024F, '
+        'U+2000..30FF or U+0000..10FFFF (surrogates replaced by `x`); (slots) every present/absent pattern of 1..6 argument slots '
+        '(125; `F()` has no slot) x 3 separators x {call `F(..)` of a recording function, array literal `{..}`} (complete, 750) '
+        '+ 150 seeded ones of 7..13 slots (a slot present with probability 2/3); slot i holds the literal i or nothing: an '
+        'accepted formula must hand over one value per slot, None for an empty one (what F received / the value of the array), a '
+        'rejected one is not judged; (lit) 400 seeded numeric literals of the five forms a, a.b, .b, a%, a^b (digit strings of 1, '
+        '2, 3, 8, 17 or 40 digits, leading zeros allowed; a of a% up to 15 digits; a^b with a of 1..2 digits and b in 0..11), 11 '
+        'fixed ones (0, 007, 0.0, 1.50, .0, 0%, 100%, 0^0, 2^10, 123456789012345678.9, thirty 9s) and 20 literal powers on both '
+        'sides of the 2^1024 guard and far above it (2^1023 / 1024, 3^646 / 647 / 1023 / 1024, 4^511 / 512, 10^308 / 341 / 342, '
+        '99^170 / 171, 01^1024, 0 / 1 / 9 ^99999999, 2^(forty 9s), (forty 9s)^7 / 8); quoted literals in both quote styles: 500 '
+        'of 0..11 characters of a 40-character alphabet (letters, digits, blank, separators, operators, backslash, parentheses, '
+        'braces, # ! % $, the other quote, tab, newline, \\x01, NBSP, accented / CJK), 300 of 1..7 characters, each with '
+        'probability 0.6 one of 46 characters that a normalisation of the source text would rewrite (full-width punctuation, '
+        'quotes, digits and letters, ideographic space, ligatures, superscript two, one half, Kelvin / Angstrom signs, long s, '
+        'dotless / dotted I, sharp s, combining acute, NBSP, zero-width space / joiner, soft hyphen, BOM, RLM, line / paragraph '
+        'separators, NEL, CR, VT, FF, Roman / circled numerals, square metre, half-width katakana) else one of `ab 1`, and 14 '
+        'fixed ones (empty, blank, lone / trailing / doubled backslash, each quote inside the other style, 200 characters): the '
+        'value must be exactly the characters between the quotes; (ws) 500 formulas of C04\'s tree generator (depth 1..4, no '
+        'error leaves) on C04\'s re-entrant host, each with minimal parentheses, with seeded blank / two blanks / tab / newline '
+        'before and a blank after operators, parentheses and commas, and with a leading blank and a trailing newline: same '
+        'outcome (floats within 1e-12 relative); (sep) 200 lists of 1..5 arguments (integers 0..49, 20% quoted texts) + 128 '
+        'lists that pair quoted texts spelling a separator or operator (comma, semicolon, two backslashes and a blank, . & % ^) '
+        'and 1, alone and after 7, each as `G(..)` and `{..}` under each of the 3 separators and as `G( a , b )`: all 7 must '
+        'give the same flat list of the integers and the texts between the quotes; (arr) 100 two-row literals (first row 2..4, '
+        'second row 1..4 integers 0..49) as `{a,b;c,d}`, `{a\\b;c\\d}` and `G(a,b;c,d)`: all 3 must give the two rows; '
         '(case) cell references in every form, each rendered as written and with the references upper-cased, evaluated '
         'with three kinds of host listeners for callCellValue / callRangeValue (an unbounded integer sheet looked up by '
         'row.index / col.index; the same sheet looked up by the label text through a strict upper-case reader; an echo of '
         'every field received: label, index / label / is_absolute of row and column): complete for two seeded one-letter '
-        'corners (lower / upper case of each corner x the 16 `$` patterns x the 4 corner orders, bare and inside SUM) and '
-        'for the 8 spellings of a single cell; seeded formulas of 1..3 references (cells and ranges, columns of 1..3 letters '
-        'with every letter in its own case, rows up to 1048576, random `$`, second corner on any side of the first) used '
-        'bare, inside SUM(..), G(.., ..) and integer + / *; the same range written twice in different cases inside one '
-        'call; fixed regression witnesses (SUM(a1:b2), SUM(c3:a1), G(a1:B2, A1:b2), b2*SUM(a1:A3), ...). The model '
+        'corners in rows 1..9 (lower / upper case of each corner x the 16 `$` patterns x the 4 corner orders, bare under the 3 '
+        'hosts and inside SUM under the 2 sheet hosts) and for the 8 spellings of a single cell; 500 seeded formulas of 1..3 '
+        'references (cells 1/3, ranges 2/3; columns of 1..3 letters with every letter in its own case, rows up to 1048576, '
+        'random `$`, second corner within 4 rows / columns on any side of the first - under the echo host anywhere with '
+        'probability 0.3) used bare, inside SUM(..), G(.., ..) and parenthesised integer + / * (echo host: bare and G only); '
+        '100 times the same range written twice in different cases inside one call, G(r, r\') or G(SUM(r), SUM(r\')); 26 fixed '
+        'regression witnesses under the 3 hosts (SUM(a1:b2), SUM(c3:a1), G(a1:B2, A1:b2), b2*SUM(a1:A3), xfd9, zz10:ZY9, ...). '
+        'Oracle: both spellings give the identical record (values and their types) under every host, and under the two sheet '
+        'hosts that record is the value / block / sum the harness computes for the denoted cells. The model '
         'evaluates the formula as written (`eval`) in an environment that holds values only under the normalised '
         'upper-case labels; its record and its cell / range events (labels, indices, `$` flags) are compared with what '
-        'the listeners recorded. Non-trivial = accepted by the parser.')
+        'the listeners recorded, in order. Every case is also answered by the Lean model (lex: `lex`; case: `eval`; the other '
+        'kinds: `c04.batch` over all renderings, records only; floats within 1 ulp for (lit) numbers, 4 ulps otherwise, or 1e-9 '
+        'relative for (ws); a model record without opinion is passed over, except in (case) where it is a disagreement). '
+        'Seeded counts are those of quick at scale 1 (6855 cases), x scale, x 10 in thorough (47805 cases); complete and fixed '
+        'families once. search(): the same families at scale 10, oracle only, up to the first failure. No time or step budget. '
+        'Non-trivial = (lex) the real lexer yields at least one token or error; other kinds: at least one rendering is '
+        'evaluated without error.')
 TRUSTED = ['the regular-expression engine `re` (each token rule has a hand-written matcher; the generated pattern texts are pinned by Props/C05)',
-           'float(text) is correctly rounded (a decimal literal is compared with the correctly rounded double of the rational it spells)',
+           'float(text) and Python\'s int / int division are correctly rounded, int ** int is exact (a decimal literal is compared '
+           'with the correctly rounded double of the rational it spells, a power below the guard with the exact integer)',
+           'fx.record_matches / fx.ulp_close as the comparison of model and implementation records (1 ulp for numeric literals, 4 '
+           'ulps elsewhere, 1e-9 relative for (ws)) and c06.same_outcome (same error, floats within 1e-12 relative, otherwise '
+           'equal values of equal type) as the equality of (ws) outcomes',
+           'C04\'s generator, minimal-parenthesis renderer, white-space inserter and host parser (variables, ID, cell listener '
+           'that evaluate further formulas on the same parser) as the source and carrier of the (ws) formulas',
+           'the functions F (records and returns its arguments) and G (returns its arguments) registered with set_function, '
+           'declared to the model as returning their arguments',
            '(case) the harness\'s own reading of a reference (column letters in bijective base 26 regardless of case, row = number - 1, '
            'a range = the rectangle spanned by its two corners, smaller index first) and its integer sum over the sheet, against '
            'which the values of the grid- and label-addressed hosts are compared; SUM of integers and the registered function G '
            '(returns its arguments) as carriers of the values']
-ASSUMPTIONS = ['white space is never inserted between a function name and its parenthesis, nor inside a token',
+ASSUMPTIONS = ['white space is blank, tab and newline; it is never inserted between a function name and its parenthesis, nor inside a '
+               'token (between the two characters of <= >= <>, inside a name, number or quoted literal)',
+               'an integer literal may have leading zeros (007 is 7); every numeric literal must evaluate without error to a '
+               'non-boolean number: an int equal to the rational it spells, or a float that is the correctly rounded double of it',
                'n% is computed as n*0.01 in floating point: compared within 1 ulp of n/100, for n below 2^53',
                'a literal power of at least 2^1024 is #NUM! (bounded evaluation time, C01): precisely, a^b with a > 1 and '
                'floor(log2 a)*b >= 1024 must answer #NUM! without a result; every other a^b (all those below 2^1024, and some '
-               'up to 2^2046 such as 3^647) must be the exact integer', 'lone surrogate code points (not representable as Lean Char) are excluded from the lexer comparison',
+               'up to 2^2046 such as 3^647) must be the exact integer when an int is returned; a float result must be the '
+               'correctly rounded double and is not judged when the power exceeds the double range',
+               'lone surrogate code points (not representable as Lean Char) are excluded from the lexer comparison',
+               'an empty argument slot (leading, between two separators, trailing) is passed as None, in calls and in array literals '
+               'alike: F(1,,3) receives [1, None, 3]; `F()` has no slot; formulas with empty slots that the parser rejects are not '
+               'judged',
+               'the separators `,` `;` `\\` are interchangeable when one of them is used alone, in argument lists and in array '
+               'literals (a flat list, also for `{1;2;3}`); `;` between groups separated by `,` or `\\` makes two rows, in an '
+               'argument list as in an array literal; a quoted text that spells a separator or operator is a value',
+               'a quoted literal is exactly the characters between its quotes, in either quote style: no escape sequences (a '
+               'backslash, also before the closing quote, and the other quote are ordinary characters), no trimming, case folding, '
+               'Unicode normalisation or dropping of control / format characters; its own quote does not occur inside',
                '"cell references are case-insensitive" is read as: a formula and the same formula with every cell reference '
                '(single cell or either corner of a range, any `$` pattern, any corner order) upper-cased have the same outcome '
-               'record whatever the host listeners compute from what they receive - so the label, row.index, row.label, '
-               'row.is_absolute, col.index, col.label and col.is_absolute delivered to callCellValue / callRangeValue must not depend '
-               'on the letter case (a host echoing all these fields makes any difference visible in the record); and, for hosts that '
-               'address an integer sheet by index or by label, the outcome is the value / selection / sum of the cells that the '
-               'upper-case spelling denotes', 'row numbers are written without leading zeros and are at least 1 in the (case) formulas']
+               'record (equal values of equal types) whatever the host listeners compute from what they receive - so the label, '
+               'row.index, row.label, row.is_absolute, col.index, col.label and col.is_absolute delivered to callCellValue / '
+               'callRangeValue must not depend on the letter case (a host echoing all these fields makes any difference visible in '
+               'the record); and, for hosts that address an integer sheet by index or by label, the outcome is the value / '
+               'selection / sum of the cells that the upper-case spelling denotes, without error, for columns up to ZZZ (beyond '
+               'XFD) and rows up to 1048576, a range being delivered with the smaller row and column index in its first corner',
+               'row numbers are written without leading zeros and are at least 1 in the (case) formulas']
 EXHAUSTIVE = {'quick': True, 'thorough': True}
 
 SEPS = [',', ';', '\\']
@@ -110,7 +178,7 @@ def cases(rng, ctx):
     for _ in range(300 * sc):
         n = rng.randrange(0, 12)
         out.append({'kind': 'lex', 's': ''.join(chr(rng.choice([rng.randrange(32, 127), rng.randrange(0, 0x250), rng.randrange(0x2000, 0x3100),
-                                                                 rng.randrange(0, 0x11000)])) for _ in range(n)).translate({k: 120 for k in range(0xD800, 0xE000)})})
+                                                                 rng.randrange(0, 0x110000)])) for _ in range(n)).translate({k: 120 for k in range(0xD800, 0xE000)})})
     # (slots) complete up to 6
     for n in range(1, 7):
         for pat in itertools.product([0, 1], repeat=n):
